@@ -27,7 +27,6 @@ theorem batchGet_props (s : St) (h : Inv s) (k : Key) :
 theorem abs_t (s : St) : (abs s).t = view s := by
   funext k
   simp only [Spec.t, abs, view]
-  cases s.tw k <;> rfl
 
 theorem step_props (s : St) (h : Inv s) (hl : LogInv s) (op : Op) :
     (step s op).2 = (specStep (abs s) op).2 ∧
@@ -47,43 +46,31 @@ theorem step_props (s : St) (h : Inv s) (hl : LogInv s) (op : Op) :
       rw [hs]
       refine ⟨?_, ?_, b, ?_, c⟩
       · simp [specStep, a, Spec.t, abs, h1]
-      · simp only [specStep, abs, e]
+      · simp only [specStep, abs, e, f]
         congr 1
         funext k'; simp [cview, c, d]
       · intro k' hk'; rw [f]; rw [e] at hk'; exact hl k' hk'
   | tput k v =>
-    refine ⟨rfl, ?_, h, ?_, rfl⟩
-    · simp only [step, specStep, abs]
-      congr 1
-      funext k'
-      by_cases hk : k' = k
-      · subst hk; simp [W.read]
-      · simp [upd_other _ _ _ _ hk]
-    · intro k' hk'
-      simp only [step] at hk' ⊢
-      by_cases hk : k' = k
-      · subst hk; simp
-      · simp only [upd_other _ _ _ _ hk] at hk'
-        exact List.mem_cons_of_mem _ (hl k' hk')
+    refine ⟨rfl, rfl, h, ?_, rfl⟩
+    intro k' hk'
+    simp only [step] at hk' ⊢
+    by_cases hk : k' = k
+    · subst hk; simp
+    · simp only [upd_other _ _ _ _ hk] at hk'
+      exact List.mem_cons_of_mem _ (hl k' hk')
   | tdel k =>
-    refine ⟨rfl, ?_, h, ?_, rfl⟩
-    · simp only [step, specStep, abs]
-      congr 1
-      funext k'
-      by_cases hk : k' = k
-      · subst hk; simp [W.read]
-      · simp [upd_other _ _ _ _ hk]
-    · intro k' hk'
-      simp only [step] at hk' ⊢
-      by_cases hk : k' = k
-      · subst hk; simp
-      · simp only [upd_other _ _ _ _ hk] at hk'
-        exact List.mem_cons_of_mem _ (hl k' hk')
+    refine ⟨rfl, rfl, h, ?_, rfl⟩
+    intro k' hk'
+    simp only [step] at hk' ⊢
+    by_cases hk : k' = k
+    · subst hk; simp
+    · simp only [upd_other _ _ _ _ hk] at hk'
+      exact List.mem_cons_of_mem _ (hl k' hk')
   | bget k =>
     obtain ⟨a, b, c, d, e, f⟩ := batchGet_props s h k
     simp only [step, specStep]
     refine ⟨by simp [a, abs], ?_, b, ?_, c⟩
-    · simp only [abs, e]
+    · simp only [abs, e, f]
       congr 1
       funext k'; simp [cview, c, d]
     · intro k' hk'; rw [f]; rw [e] at hk'; exact hl k' hk'
@@ -127,6 +114,8 @@ theorem abs_txCommit (s : St) : abs (txCommit s) = (abs s).commit := by
 theorem abs_txDiscard (s : St) : abs (txDiscard s) = (abs s).discard := by
   simp only [abs, Spec.discard, txDiscard]
   congr 1
+
+theorem abs_writes (s : St) : (abs s).writes = txWrites s := rfl
 
 theorem runTx_props (s : St) (h : Inv s) (hl : LogInv s) (t : Tx) :
     (runTx s t).2 = (specTx (abs s) t).2 ∧ abs (runTx s t).1 = (specTx (abs s) t).1 ∧
